@@ -427,3 +427,22 @@ Example sign_result_fresh_notices_append :
   sign_result_fresh [("signer.Signer.Sign", ["append-to-param dat"]); ("signer.Signer.hash", ["fresh"]);
                      ("signer.Signer.Check", ["nil"; "view-of-param bs"])] = false.
 Proof. vm_compute. reflexivity. Qed.
+
+(** ** The signer's key is the whole key it was given
+
+    Decided on what signer.New stores in every Signer it builds: the parameter
+    itself, a copy of all of it, or (for a nil key) fresh random bytes; never a
+    buffer of a fixed length. *)
+Definition whole_key_forms : list string :=
+  [ "param key"; "copy-of-param key"; "make(len(key))+copy"; "random" ].
+
+Definition signer_key_whole (l : list string) : bool :=
+  match l with [] => false | _ => forallb (fun o => mem_string o whole_key_forms) l end
+  && existsb (fun o => negb (String.eqb o "random")) l.
+
+Lemma gen_signer_key_whole : signer_key_whole gen_signer_stored_key = true.
+Proof. vm_compute. reflexivity. Qed.
+
+Example signer_key_whole_notices_truncation :
+  signer_key_whole ["random"; "make(keySize)+copy"] = false.
+Proof. vm_compute. reflexivity. Qed.
